@@ -102,14 +102,14 @@ def translate(src, vocab, targets, header, requires, shapes=None):
     out = [header, requires, ""]
     for fname, impl_of, coq_name, opts in targets:
         try:
-            fn = find_fn(items, fname, impl_of, opts.get("trait"))
+            fn = find_fn(items, fname, impl_of, opts.get("trait"), opts.get("trait_arg"))
         except KeyError as e:
             raise TranslateError(str(e))
         try:
             text, shape = em.emit_fn(fn, impl_of, coq_name, opts.get("monadic", False))
         except EmitError as e:
             raise TranslateError("%s%s: %s" % ((impl_of + "::") if impl_of else "", fname, e))
-        key = (impl_of + "::" if impl_of else "") + fname
+        key = opts.get("key") or ((impl_of + "::" if impl_of else "") + fname)
         em.fn_shapes[key] = shape
         out.append("(* %s *)" % key)
         out.append(text)
